@@ -46,6 +46,10 @@ RULE = (
     "same execution rules as (b): an edited or reverted call executes (a revert is never "
     "fast-forwarded: the edited run must have rolled back EVERY handle argument), everything "
     "downstream of an executed call executes, nothing else does. "
+    "(d) Nested histories: main -> outer(init(root)); outer's body returns inner(fork) lazily, where the "
+    "fork is outer's input or an explicit fork of it, passed positionally or by keyword; versions of "
+    "init/outer/inner edited and reverted over 3-6 runs; every cache hit is searched for handle states, "
+    "also inside the arguments of lazy calls, and none may be invalid; init/inner follow the execution rules. "
     "Non-trivial = (a) a rollback with a fork (two children) or a merge among the affected states, or "
     "re-derivation of an invalidated state; (b) a history with an edit followed by a revert, or an "
     "edit in a branched/merged DAG; (c) the join task reverted to an earlier version."
@@ -362,7 +366,7 @@ def workflow_cases(draw):
         elif how == "revert" and len(runs) >= 2:
             cur = list(runs[-2])
         runs.append(cur)
-    return {"kind": "workflow", "pre": pre, "merge": merge, "post": post, "runs": runs}
+    return {"kind": "workflow", "pre": pre, "merge": merge, "post": post, "runs": runs, "kw": draw(st.booleans())}
 
 
 class Shape:
@@ -372,6 +376,7 @@ class Shape:
         self.pre = [list(p) for p in case["pre"]]
         self.post = [list(p) for p in case["post"]]
         self.merge = case["merge"]
+        self.kw = bool(case.get("kw"))      # handles passed to the tasks by keyword
         n = len(self.pre)
         self.n = n
         self.total = n + len(self.post)
@@ -460,7 +465,7 @@ def build_workflow(shape: Shape, versions, rec, backend):
             h = root if src < 0 else outs[src]
             if uf is not None:
                 h = h.fork(uf)
-            outs.append(tasks[tk](h, i))
+            outs.append(tasks[tk](conn=h, i=i) if shape.kw else tasks[tk](h, i))
         if shape.merged:
             cur = merge_handles([outs[i] for i in shape.merged])
         elif len(shape.leaves) == 1:
@@ -469,11 +474,11 @@ def build_workflow(shape: Shape, versions, rec, backend):
             return [outs[i] for i in shape.leaves]
         for j, (tk, uf) in enumerate(shape.post):
             h = cur.fork(uf) if uf is not None else cur
-            cur = tasks[tk](h, shape.n + j)
+            cur = tasks[tk](conn=h, i=shape.n + j) if shape.kw else tasks[tk](h, shape.n + j)
         return cur
 
     tm = Task(main, name="main", namespace=NS,
-              source="main " + canon([shape.pre, shape.merge, shape.post]))
+              source="main " + canon([shape.pre, shape.merge, shape.post, shape.kw]))
     reg.add(tm)
     return tm
 
@@ -790,6 +795,154 @@ def join_oracle(ctx: Ctx, case) -> list:
     return labels
 
 
+# ====================================================================== (d) a task that forks its handle and passes it on
+@st.composite
+def nested_cases(draw):
+    """main -> outer(init(root)); outer's body returns inner(<explicit fork of its input>) lazily, the
+    fork passed positionally or by keyword; init / outer / inner versions edited and reverted."""
+    nruns = draw(st.integers(3, 6))
+    runs = [[0, 0, 0]]
+    for _ in range(nruns - 1):
+        prev = runs[-1]
+        c = draw(st.sampled_from(["same", "edit-init", "edit-init", "edit", "revert", "revert"]))
+        cur = list(prev)
+        if c == "edit-init":
+            cur[0] = (prev[0] + 1) % 3
+        elif c == "edit":
+            k = draw(st.integers(0, 2))
+            cur[k] = (prev[k] + 1) % 3
+        elif c == "revert" and len(runs) >= 2:
+            cur = list(runs[-2])
+        runs.append(cur)
+    return {"kind": "nested", "kw": draw(st.booleans()), "fork": draw(st.sampled_from(["a", None])), "runs": runs}
+
+
+def nested_oracle(ctx: Ctx, case) -> list:
+    from redun import Task
+    from redun.handle import Handle as BaseHandle
+    from redun.task import get_task_registry
+    from redun.utils import iter_nested_value
+
+    labels = []
+    b = dbx.fresh_backend()
+    try:
+        sched = C.new_scheduler(backend=b)
+        sched.load()
+        reg = get_task_registry()
+        down = {0: {2}, 1: set(), 2: set()}
+        replayed_invalid: list = []
+        orig_get_cache = sched._get_cache
+
+        def handles_in(v, depth=0):
+            """Handle states anywhere in a cached result, also inside the arguments of lazy expressions."""
+            from redun.expression import Expression
+
+            if depth > 10:
+                return
+            if isinstance(v, BaseHandle):
+                yield v
+            elif isinstance(v, Expression):
+                d = v.__dict__
+                for a in list(d.get("args") or ()) + list((d.get("kwargs") or {}).values()):
+                    yield from handles_in(a, depth + 1)
+            elif isinstance(v, dict):
+                for a in v.values():
+                    yield from handles_in(a, depth + 1)
+            elif isinstance(v, (list, tuple, set, frozenset)):
+                for a in v:
+                    yield from handles_in(a, depth + 1)
+
+        def get_cache(job):
+            result, was_cached, call_hash = orig_get_cache(job)
+            if was_cached:
+                for h in handles_in(result):
+                    if not b.is_valid_handle(h):
+                        replayed_invalid.append((job.task.fullname, h.__handle__.hash[:8]))
+            return result, was_cached, call_hash
+
+        sched._get_cache = get_cache
+        for r, versions in enumerate(case["runs"]):
+            rec: list = []
+
+            def f_init(conn, i):
+                rec.append(0)
+                return conn
+
+            def f_inner(conn, i):
+                rec.append(2)
+                return conn
+
+            t_init = Task(f_init, name="n_init", namespace=NS, source=f"def n_init(conn, i):\n    # version {versions[0]}\n    return conn\n")
+            t_inner = Task(f_inner, name="n_inner", namespace=NS, source=f"def n_inner(conn, i):\n    # version {versions[2]}\n    return conn\n")
+
+            def f_outer(conn, i):
+                rec.append(1)
+                h = conn.fork(case["fork"]) if case["fork"] else conn
+                return t_inner(conn=h, i=i) if case["kw"] else t_inner(h, i)
+
+            t_outer = Task(f_outer, name="n_outer", namespace=NS,
+                           source=f"def n_outer(conn, i):\n    # version {versions[1]} {case['kw']} {case['fork']}\n")
+
+            def f_main():
+                return t_outer(t_init(H("nconn", 1, namespace=NS), 0), 1)
+
+            t_main = Task(f_main, name="n_main", namespace=NS, source="n_main " + canon([case["kw"], case["fork"]]))
+            for t in (t_init, t_inner, t_outer, t_main):
+                reg.add(t)
+            ctl = C.Ctl()
+            ctl.attach(sched)
+            with ctx.no_raise("scheduler run", case):
+                result = sched.run(t_main())
+            eset = set(rec)
+            where = f"run {r} versions={versions} executed={sorted(rec)}"
+            if len(rec) != len(eset):
+                raise Violation("nested:executed-twice", f"{where}: a call ran more than once in one run", case)
+            if replayed_invalid:
+                raise Violation("nested:replayed-invalid-handle", f"{where}: a cached result holding invalidated handle state(s) "
+                                f"{replayed_invalid[:3]} was replayed (the state sits in the arguments of the lazy call the "
+                                f"task returned)", case)
+            if r == 0:
+                if eset != {0, 1, 2}:
+                    raise Violation("nested:first-run-incomplete", f"{where}: expected every call once", case)
+            else:
+                prev = case["runs"][r - 1]
+                edited = {i for i in range(3) if versions[i] != prev[i]}
+                # init and inner return their handle (its new state carries the task's hash): an edited
+                # or reverted one executes, and inner executes whenever init did. outer returns a lazy
+                # call: the states in it do not depend on outer's version and are re-derived when it or
+                # init runs again, so outer may be replayed or run; what matters is the check above.
+                must = {i for i in edited if i != 1}
+                for e in sorted((eset | edited) - {1}):
+                    must |= down[e]
+                allowed = set(must) | {1, 2}
+                for d in sorted(must - eset):
+                    key = "nested:edited-not-executed" if d in edited else "nested:downstream-not-reexecuted"
+                    raise Violation(key, f"{where}: call {['init', 'outer', 'inner'][d]} was replayed from cache although "
+                                    + ("its task was edited/reverted since the previous run" if d in edited else
+                                       "a call upstream of its handle ran (its cached result holds a handle state derived from "
+                                       "a state that was rolled back)"), case)
+                spurious = eset - allowed
+                if spurious:
+                    raise Violation("nested:spurious-execution", f"{where}: calls {sorted(spurious)} ran although nothing upstream changed", case)
+                if 0 in edited and r >= 2 and versions[0] == case["runs"][r - 2][0]:
+                    labels.append("init-reverted")
+            for v in iter_nested_value(result):
+                if isinstance(v, BaseHandle) and not b.is_valid_handle(v):
+                    raise Violation("nested:result-invalid", f"{where}: the run returned an invalid handle state", case)
+    finally:
+        dbx.discard_backend(b)
+    return labels
+
+
+def run_nested_case(ctx: Ctx, case) -> None:
+    labels = []
+    try:
+        labels = nested_oracle(ctx, case)
+    finally:
+        ctx.case(case, labels=["nested", f"kw:{case['kw']}", f"fork:{case['fork']}"] + sorted(set(labels)),
+                 nontrivial="init-reverted" in labels)
+
+
 def run_join_case(ctx: Ctx, case) -> None:
     labels = []
     try:
@@ -838,6 +991,7 @@ def check(ctx: Ctx) -> None:
     ctx.given(backend_cases, lambda c: run_backend_case(ctx, c), ctx.n(300, 14000))
     ctx.given(workflow_cases(), lambda c: run_workflow_case(ctx, c), ctx.n(80, 2000))
     ctx.given(join_cases(), lambda c: run_join_case(ctx, c), ctx.n(40, 1200))
+    ctx.given(nested_cases(), lambda c: run_nested_case(ctx, c), ctx.n(40, 1200))
 
 
 def replay(ctx: Ctx, case) -> None:
@@ -848,5 +1002,7 @@ def replay(ctx: Ctx, case) -> None:
         backend_oracle(ctx, case)
     elif case["kind"] == "join":
         join_oracle(ctx, case)
+    elif case["kind"] == "nested":
+        nested_oracle(ctx, case)
     else:
         workflow_oracle(ctx, case)
